@@ -354,7 +354,7 @@ _SAME = {0: ["one", "two"], 1: ["inc", "dbl", "neg", "id"], 2: ["mul", "add", "s
 
 def _partial_call(rnd, names, existing):
     """A full call, or -- keeping the component's current arity -- only a new function / only new arguments."""
-    if existing is None or rnd.random() < 0.4:
+    if existing is None or rnd.random() < 0.4 or len(existing.args) not in _SAME:
         return _rand_call(rnd, names), "both"
     k = len(existing.args)
     mode = rnd.choice(["fn", "args"])
